@@ -115,6 +115,22 @@ def crystal_library():
         y_ = (c_ - c_ * c_) / np.sin(al)
         return _c(a([[1., 0., 0.], [c_, np.sin(al), 0.], [c_, y_, np.sqrt(1 - c_ * c_ - y_ * y_)]]).T, [a([0., 0., 0.])])
     L['rhomb50'] = _rh50
+    # operations with IN-PLANE translation parts on a lattice matrix that is not symmetric: wurtzite with a cation on the cell
+    # origin (screw / glide translations like (1/3,-1/3,1/2)) and a monoclinic cell (gamma = 105 degrees) with an a-glide
+    L['wurtzite-o'] = lambda: _c(a([[0.5, 0.5, 0.], [-np.sqrt(0.75), np.sqrt(0.75), 0.], [0., 0., 1.62]]),
+                                 [[a([0., 0., 0.]), a([1. / 3, -1. / 3, 0.5])], [a([0., 0., 0.38]), a([1. / 3, -1. / 3, 0.88])]], noreduce=True)
+    def _monoglide():
+        g_ = np.deg2rad(105.)
+        latt = a([[1., 1.3 * np.cos(g_), 0.], [0., 1.3 * np.sin(g_), 0.], [0., 0., 1.7]])
+        x0, x1 = a([0.125, 0.25, 0.1875]), a([0.375, 0.625, 0.0625])
+        gl = lambda x: a([x[0] + 0.5, x[1], -x[2]])   # noqa: E731
+        return _c(latt, [[x0, gl(x0)], [x1, gl(x1)]], noreduce=True)
+    L['mono-glide'] = _monoglide
+    # cells kept as supplied (noreduce): strongly sheared, so that zone faces come from reciprocal vectors with coefficients 2..4
+    L['skew16'] = lambda: _c(a([[1., 1.6], [0., 1.]]), [a([0., 0.])], noreduce=True)
+    L['skew34'] = lambda: _c(a([[1., 3.4], [0., 1.]]), [a([0., 0.])], noreduce=True)
+    L['mono-unreduced'] = lambda: _c(a([[1., 0., 2.5 * np.cos(np.deg2rad(125.))], [0., 1.1, 0.], [0., 0., 2.5 * np.sin(np.deg2rad(125.))]]),
+                                     [a([0., 0., 0.])], noreduce=True)
     L['fcc-nosym'] = lambda: _c(0.5 * a([[0., 1., 1.], [1., 0., 1.], [1., 1., 0.]]), [a([0., 0., 0.])], NOSYM=True)
     L['hcp-nosym'] = lambda: _c(a([[0.5, 0.5, 0.], [-np.sqrt(0.75), np.sqrt(0.75), 0.], [0., 0., np.sqrt(8. / 3.)]]),
                                 [a([1. / 3, 2. / 3, 0.25]), a([2. / 3, 1. / 3, 0.75])], NOSYM=True)
